@@ -188,7 +188,7 @@ class Circuit:
             new_indices_with_control = (control_index, *new_indices)
             c_ops.append(controlled_op(*new_indices_with_control))
 
-        return Circuit(c_ops)
+        return Circuit(c_ops, n_qubits=max(self.n_qubits, control_index) + 1)
 
 
 @singledispatch
